@@ -77,7 +77,7 @@ def design_mech(run, thorough):
         run.design(res, "SpeakerMech %s" % g)
 
 
-def run_speaker(run, invs, kf_invs=None, design=design_mech, policy=False):
+def run_speaker(run, invs, kf_invs=None, design=design_mech, policy=False, collide=False):
     thorough = run.tier == "thorough"
     if design:
         design(run, thorough)
@@ -87,10 +87,13 @@ def run_speaker(run, invs, kf_invs=None, design=design_mech, policy=False):
         if policy and g == "rs":
             continue        # the closed policy family is assigned to the global table
         gnum = num * 3 if (policy and g == "addpath") else num     # the per-path policy cases are rarer
-        behs = run.replay_behaviours(g) if run.replay else gen(run, g, gnum, run.seed * 100 + i, steps, policy)
+        rg = run.replay.get("group") if run.replay else None
+        if run.replay:
+            behs = [run.replay["behaviour"]] if rg in (g, g + "-collide") else []
+        else:
+            behs = gen(run, g, gnum, run.seed * 100 + i, steps, policy)
         if not behs:
             continue
-        traces = run.execute("c01", "pkg/server", "^TestVerifC01$", behs, tag="speaker-" + g)
         cfg = "SpeakerTrace_%s_%s.cfg" % (run.prop, g)
         ginvs = [x for x in invs if not (g == "rs" and x in RS_SKIP)]
         v.write_cfg(run.sc, cfg, TRACE_CFG % {"g": g, "invs": "\n".join("  " + x for x in ginvs)})
@@ -98,4 +101,13 @@ def run_speaker(run, invs, kf_invs=None, design=design_mech, policy=False):
         if kf_invs:
             kcfg = "SpeakerKF_%s_%s.cfg" % (run.prop, g)
             v.write_cfg(run.sc, kcfg, TRACE_CFG % {"g": g, "invs": "\n".join("  " + x for x in kf_invs)})
-        run.validate("SpeakerTrace", cfg, traces, behs, known_cfg=kcfg, group=g)
+        if rg != g + "-collide":
+            traces = run.execute("c01", "pkg/server", "^TestVerifC01$", behs, tag="speaker-" + g)
+            run.validate("SpeakerTrace", cfg, traces, behs, known_cfg=kcfg, group=g)
+        if collide and rg != g:
+            # the same schedules with every prefix of a table in ONE hash bucket (hook VerifKeyHook of
+            # internal/pkg/table): the collision chains are walked by every insert, delete and lookup
+            traces = run.execute("c01", "pkg/server", "^TestVerifC01$", behs, tag="speaker-%s-collide" % g,
+                                 env={"VERIF_COLLIDE": 1})
+            run.validate("SpeakerTrace", cfg, traces, behs, known_cfg=kcfg, group=g + "-collide")
+            run.extra["collide_traces"] = run.extra.get("collide_traces", 0) + len(traces)
